@@ -82,6 +82,8 @@ def gate_pol(cond):
         return None
     if c.get("k") == "call" and X.callee_name(c) in GATE_HELPERS:
         return GATE_HELPERS[X.callee_name(c)]
+    if c.get("k") == "ref" and c.get("flagdef") is not None:
+        return gate_pol(c["flagdef"])            # a flag local that stands for the gate (record = level >= N ? 1 : 0)
     if c.get("k") == "un" and c.get("op") == "!":
         g = gate_pol(c["ch"][0])
         return (g[0], not g[1]) if g else None
